@@ -3,8 +3,10 @@ CONSTANTS NB = 5
  Confs <- McConfs2x
  NT = 0
  MaxDup = 0
+ Races = TRUE
  BugAddMiddle = FALSE
  BugTxLoopVar = FALSE
+ BugConfirmRace = FALSE
 INVARIANTS TypeOK ChainLinear Converges CacheSorted CacheKeepsUntilParent CacheOnlyWaiting ConfirmsKept TxOnce
 PROPERTY Forward
 CHECK_DEADLOCK FALSE
